@@ -272,7 +272,10 @@ def setup_hier(eng, jobs=4):
     def reduplicate(e, x):
         p = cur()
         if not isinstance(x, AbsExprs):
-            raise PyRaise(TypeError('reduplicate of a non-list'))
+            # the contract of reduplicate is stated over abstract inputs; a
+            # concrete argument is outside this model, not an error of ddSMT
+            raise Unsupported('reduplicate contract applied to a concrete '
+                              f'{type(x).__name__}')
         r = AbsExprs(REDUP(x.term), 'redup')
         p.assume(FLAT(r.term) == FLAT(x.term))  # C13 contract
         p.assume(TREE(r.term))
@@ -954,7 +957,10 @@ def install_dd_env(eng, jobs=1):
     def reduplicate(e, x):
         p = cur()
         if not isinstance(x, AbsExprs):
-            raise PyRaise(TypeError('reduplicate of a non-list'))
+            # the contract of reduplicate is stated over abstract inputs; a
+            # concrete argument is outside this model, not an error of ddSMT
+            raise Unsupported('reduplicate contract applied to a concrete '
+                              f'{type(x).__name__}')
         r = AbsExprs(REDUP(x.term), 'redup')
         p.assume(FLAT(r.term) == FLAT(x.term))
         p.assume(TREE(r.term))
@@ -986,9 +992,13 @@ def dd_write_stub(eng, tag):
             return
         cand = g.get('adopted_from')
         p.oblige(f'C05/{tag}/written-is-the-accepted-candidate',
-                 cand is not None and mk_bool(x.term == cand[0]),
-                 info={'signature': 'written list is not the accepted '
-                       'candidate'})
+                 # C05 is about the contents written: the tokens of the
+                 # accepted candidate (re-establishing distinct identities in
+                 # between changes no token, C13)
+                 cand is not None and mk_bool(
+                     FLAT(x.term) == FLAT(cand[0])),
+                 info={'signature': 'written contents are not those of the '
+                       'accepted candidate'})
         p.oblige(f'C05/{tag}/candidate-derived-from-chain-predecessor',
                  cand is not None and mk_bool(z3.And(
                      cand[0] == AS(cand[1], cand[2]),
@@ -1063,7 +1073,11 @@ def setup_check_seq(eng):
         ex = tg.attrs['exprs']
         if not isinstance(ex, AbsExprs):
             return False
-        return [('C01+C06', FLAT(ex.term) == g['last']),
+        # C13: every task is generated from taskgen.exprs (elem below), so it
+        # is a tree at the head of every iteration - also after an accepted
+        # result was installed by update()
+        return [('C13', TREE(ex.term)),
+                ('C01+C06', FLAT(ex.term) == g['last']),
                 ('C01', z3.Implies(sym.zbool(g['written']), ACC(g['last']))),
                 ('C16', z3.Or(z3.Not(sym.zbool(g['seq_adopted'])),
                               same_exprs(g.get('collected_for'), ex)))]
@@ -1098,6 +1112,9 @@ def run_check_seq(eng, p):
     g['written'] = mk.sbool(p, 'written0')
     p.assume(z3.Implies(g['written'].z, ACC(g['last'])))
     g['seq_adopted'] = False
+    # precondition (C13): _apply_mutator builds the generator from a tree
+    # (C13/ddmin._apply_mutator/taskgen-input-is-a-tree)
+    p.assume(TREE(B0.term))
     tg = make_taskgen(eng, p, B0, parallel=False)
     stats = SymDict([('tests', 0), ('tests_success', 0), ('reduced', 0)])
     out = outcome(eng, dd.g['_check_seq'], [tg, mk.sint(p, 'nexprs'), stats])
@@ -1109,6 +1126,8 @@ def run_check_seq(eng, p):
     p.oblige(f'C01/{N}/returns-the-current-input',
              isinstance(res, AbsExprs) and res is tg.attrs['exprs'] and
              mk_bool(FLAT(res.term) == g['last']))
+    p.oblige(f'C13/{N}/returns-a-tree',
+             isinstance(res, AbsExprs) and mk_bool(TREE(res.term)))
     p.oblige(f'C16/{N}/tables-rebuilt-after-adoption',
              z3.Or(z3.Not(sym.zbool(g['seq_adopted'])),
                    same_exprs(g.get('collected_for'), res)))
@@ -1139,7 +1158,8 @@ def setup_check_par(eng):
         ex = tg_of(env_).attrs['exprs']
         if not isinstance(ex, AbsExprs):
             return [False]
-        return [('C01+C06', FLAT(ex.term) == g['last']),
+        return [('C13', TREE(ex.term)),
+                ('C01+C06', FLAT(ex.term) == g['last']),
                 ('C01', z3.Implies(sym.zbool(g['written']), ACC(g['last'])))]
 
     # outer loop: one batch per iteration
@@ -1257,6 +1277,9 @@ def run_check_par(eng, p):
     g['written'] = mk.sbool(p, 'written0')
     p.assume(z3.Implies(g['written'].z, ACC(g['last'])))
     g['par_adopted'] = False
+    # precondition (C13): _apply_mutator builds the generator from a tree
+    # (C13/ddmin._apply_mutator/taskgen-input-is-a-tree)
+    p.assume(TREE(B0.term))
     g['collected_for'] = None
     tg = make_taskgen(eng, p, B0, parallel=True)
     stats = SymDict([('tests', 0), ('tests_success', 0), ('reduced', 0)])
@@ -1269,6 +1292,8 @@ def run_check_par(eng, p):
     p.oblige(f'C01/{N}/returns-the-current-input',
              isinstance(res, AbsExprs) and res is tg.attrs['exprs'] and
              mk_bool(FLAT(res.term) == g['last']))
+    p.oblige(f'C13/{N}/returns-a-tree',
+             isinstance(res, AbsExprs) and mk_bool(TREE(res.term)))
     p.oblige(f'C16/{N}/tables-rebuilt-after-adoption',
              z3.Or(z3.Not(sym.zbool(g['par_adopted'])),
                    same_exprs(g.get('collected_for'), res)))
@@ -1395,6 +1420,8 @@ def run_worker(eng, p):
 def setup_tg_next(eng):
     install_dd_env(eng, jobs=1)
     nm.install(eng)
+    # concrete nodes here: update() runs the real nodes.reduplicate
+    del eng.overrides['ddsmt.nodes.reduplicate']
 
 
 def make_run_tg_next(parallel):
@@ -1447,8 +1474,12 @@ def make_run_tg_next(parallel):
         eng.call(eng.getattr(tg, 'reset'), [1], {})
         eng.call(eng.getattr(tg, 'start'), [], {})
         t2 = eng.call(nxt, [], {})
+        # the new input, with identities re-established (C13: nodes that
+        # were already unique - all of them here - keep their identity)
+        b2 = base_of(t2)
         p.oblige(f'C05/{N}/task-after-update-carries-new-input',
-                 base_of(t2) is new and t2.id == 1,
+                 b2 is tg.attrs['exprs'] and isinstance(b2, list) and
+                 len(b2) == 2 and b2[0] is a and b2[1] is c and t2.id == 1,
                  info={'signature': 'task generated after update() still '
                        'carries the superseded input'})
 
